@@ -11,6 +11,7 @@ type Feat struct {
 	MaxDepth       int
 	MaxOps         int
 	MaxParams      int
+	DeepBias       bool // new scopes preferably below the deepest existing one
 	Export         bool
 	Objects        bool
 	Optional       bool
@@ -333,6 +334,9 @@ func (g *genCtx) genCtor(s int) *Func {
 	if f.HasErr && !f.ErrFirst && len(f.Results) >= 2 && g.r.P(ft.PErrFirst) {
 		f.ErrAt = g.r.Range(1, len(f.Results)-1) // (T1, error, T2): legal, unusual
 	}
+	if f.HasErr && g.r.P(ft.PErrFirst/2) {
+		f.ErrExtra = g.r.Range(1, 2) // two error results: the other one stays nil
+	}
 	f.Reenter = g.r.P(ft.PReenter)
 	maxT := minT
 	wild := g.r.P(ft.Wild)
@@ -451,6 +455,9 @@ func (g *genCtx) genDecorator(s int) *Func {
 	if f.HasErr && !f.ErrFirst && len(f.Results) >= 2 && g.r.P(g.ft.PErrFirst) {
 		f.ErrAt = g.r.Range(1, len(f.Results)-1)
 	}
+	if f.HasErr && g.r.P(g.ft.PErrFirst/2) {
+		f.ErrExtra = g.r.Range(1, 2)
+	}
 	f.Callback = g.ft.Callbacks && g.r.P(0.5)
 	f.Variadic = g.ft.Variadic && g.r.P(g.ft.PVariadic)
 	if g.r.P(g.ft.PReenter) {
@@ -487,6 +494,22 @@ func (g *genCtx) opScope() {
 		return
 	}
 	p := cands[g.r.Intn(len(cands))]
+	if g.ft.DeepBias && g.r.P(0.6) {
+		// grow chains: below (one of) the deepest scopes that may have children
+		best := -1
+		for _, s := range cands {
+			if d := g.m.Depth(s); d > best {
+				best = d
+			}
+		}
+		var deep []int
+		for _, s := range cands {
+			if g.m.Depth(s) == best {
+				deep = append(deep, s)
+			}
+		}
+		p = deep[g.r.Intn(len(deep))]
+	}
 	g.addOp(Op{Kind: OpScope, Scope: p})
 	g.m.AddScope(p)
 }
@@ -706,8 +729,8 @@ func (g *genCtx) genFaults() {
 func BaseFeat(r *Rng, thorough bool) Feat {
 	ft := Feat{
 		NT:        r.Range(3, 8),
-		MaxScopes: r.Range(1, 4),
-		MaxDepth:  r.Range(1, 3),
+		MaxScopes: r.Range(1, 6),
+		MaxDepth:  r.Range(1, 4),
 		MaxOps:    r.Range(8, 40),
 		PAvail:    0.7 + 0.25*float64(r.Intn(2)),
 		PDup:      0.1,
@@ -739,6 +762,11 @@ func BaseFeat(r *Rng, thorough bool) Feat {
 	ft.PVariadic = []float64{0.1, 0.1, 0.4}[r.Intn(3)]
 	ft.Info = r.P(0.3)
 	ft.PErrFirst = []float64{0, 0.15, 0.3}[r.Intn(3)]
+	if r.P(0.2) {
+		// deep trees: chains of depth >= 3 with siblings at the bottom
+		ft.DeepBias = true
+		ft.MaxScopes, ft.MaxDepth = r.Range(5, 8), r.Range(3, 5)
+	}
 	return ft
 }
 
